@@ -14,7 +14,14 @@ def sh(cmd, cwd=None, env=ENV, timeout=3000):
 items = []
 for d in sorted(os.listdir("/verif/seeded")):
     if re.match(r"C\d\d-", d) and os.path.exists(f"/verif/seeded/{d}/patch.diff"):
-        items.append((d, f"/verif/seeded/{d}/patch.diff", d[:3]))
+        owner = d[:3]
+        try:
+            det = json.load(open(f"/verif/seeded/{d}/meta.json")).get("detected_by") or []
+            if det and owner not in det:
+                owner = det[0]  # e.g. a 1-in-2^32 sampler bias seeded for C02 is decided by C01's sweep
+        except Exception:
+            pass
+        items.append((d, f"/verif/seeded/{d}/patch.diff", owner))
 for f in sorted(os.listdir("/verif/mutants")):
     m = re.match(r"c(\d\d)-.*\.diff$", f)
     if m: items.append((f, f"/verif/mutants/{f}", "C" + m.group(1)))
